@@ -2,6 +2,7 @@ import Asn1cModel.Props.C01
 import Asn1cModel.Props.L1Per
 import Asn1cModel.Proofs.BerTlv
 import Asn1cModel.Props.C02Oer
+import Asn1cModel.Props.C02Uper
 /-
   C02 — encoders emit the byte-exact standard wire format.  The theorems audited for this property
   live in Proofs/BerTlv.lean (identifier / length octets = X.690 §8.1.2/§8.1.3/§10.1),
